@@ -292,6 +292,36 @@ def dbWrites (d : DbImg) (mdata : Bytes) : List (Nat × Bytes) :=
 /-- the file after the database has been written over `old` -/
 def writeDb (old : Bytes) (d : DbImg) (mdata : Bytes) : Bytes := pokes old (dbWrites d mdata)
 
+/-! ### Layout of a node: records appended to a fresh data block from the block end
+
+`_kvblk_addkv` on a block whose slots `0..j-1` are taken puts the next record into slot `j`
+(`zidx` = first free slot) at offset `maxoff + psz` from the block end, `psz` bytes long. -/
+
+def layoutOffs : Nat → List Bytes → List (Nat × Nat)
+  | _, [] => []
+  | maxoff, e :: es => (maxoff + e.length, e.length) :: layoutOffs (maxoff + e.length) es
+
+def layoutSlots (recs : List (Bytes × Bytes)) : List (Nat × Nat) :=
+  layoutOffs 0 (recs.map fun r => encKv r.1 r.2) ++ List.replicate (Gen.KVBLK_IDXNUM - recs.length) (0, 0)
+
+/-- where a node lives: block of its record, its data block (block number, size 2^szpow), page slot -/
+structure NodePlace where
+  blk : Nat
+  kblk : Nat
+  szpow : Nat
+  bpos : Nat
+deriving Repr
+
+/-- image of a node holding `recs` (stored key, value; in key order), filled in that order -/
+def mkNode (p : NodePlace) (lvl : Nat) (n : List Nat) (p0 : Nat) (recs : List (Bytes × Bytes)) : Sblk :=
+  let k0 := (recs.head?.map (·.1)).getD []
+  let lk := k0.take Gen.PREFIX_KEY_LEN_V2
+  let slots := layoutSlots recs
+  { flags := if k0.length ≤ Gen.PREFIX_KEY_LEN_V2 then Gen.SBLK_FULL_LKEY else 0, lvl, lkl := lk.length,
+    pnum := recs.length, p0, kblk := p.kblk,
+    piAll := List.range recs.length ++ List.replicate (Gen.KVBLK_IDXNUM - recs.length) 0, n, bpos := p.bpos, lk,
+    szpow := p.szpow, idxsz := (encSlots slots).length, slots, blk := p.blk, recs }
+
 /-! ### Re-encoding (`drv fmt reenc`): the encoders of Model/FormatEnc.lean against the bytes of a real file -/
 
 structure ReencCounts where
